@@ -55,7 +55,15 @@ func (a c08Af) mode() uint8 {
 }
 
 type c08Cfg struct {
-	localAs, peerAs uint32
+	localAs, peerAs uint32 // localAs: the neighbour's EFFECTIVE Config.LocalAs (filled in by resolve from the real defaults)
+	// how the configuration is GIVEN: the global AS, the neighbour's configured local-as (0 = none),
+	// the confederation (identifier used towards peers outside it; members = confed below)
+	globalAs, cfgLocalAs uint32
+	confedEn             bool
+	confedID             uint32
+	resolved             bool
+	dflInternal          bool   // Config.PeerType == INTERNAL as the real defaults derive it
+	announcedAs          uint32 // the AS our OPEN announced on this session (read from its octets)
 	routerID        uint32
 	hold            int
 	ka3             int
@@ -69,7 +77,53 @@ type c08Cfg struct {
 	afs             []c08Af
 }
 
-func (c *c08Cfg) internal() bool { return c.peerAs == c.localAs }
+func (c *c08Cfg) internal() bool {
+	if c.resolved {
+		return c.dflInternal
+	}
+	return c.peerAs == c.localAs
+}
+
+func (c *c08Cfg) global() *oc.Global {
+	g := &oc.Global{}
+	g.Config.As = c.globalAs
+	g.Config.RouterId = c08U32Addr(c.routerID)
+	g.Confederation.Config.Enabled = c.confedEn
+	g.Confederation.Config.Identifier = c.confedID
+	g.Confederation.Config.MemberAsList = append([]uint32{}, c.confed...)
+	return g
+}
+
+// resolve lets the REAL configuration layer (oc.SetDefaultNeighborConfigValues) derive the
+// neighbour's LocalAs and PeerType from the global AS, the configured local-as, the confederation
+// and the configured peer-as. Cases written with a literal localAs and no global AS mean "global =
+// local, no override".
+func (c *c08Cfg) resolve(t testing.TB) {
+	if c.globalAs == 0 {
+		c.globalAs = c.localAs
+	}
+	scratch := &oc.Neighbor{}
+	scratch.Config.NeighborAddress = netip.MustParseAddr("10.9.9.9")
+	scratch.Config.PeerAs = c.peerAs
+	scratch.Config.LocalAs = c.cfgLocalAs
+	if err := oc.SetDefaultNeighborConfigValues(scratch, nil, c.global()); err != nil {
+		t.Fatalf("defaults: %v", err)
+	}
+	c.localAs = scratch.Config.LocalAs
+	c.dflInternal = scratch.Config.PeerType == oc.PEER_TYPE_INTERNAL
+	c.resolved = true
+}
+
+// specLocalAs: the AS the neighbour must speak with, stated independently of the code and the model
+func (c *c08Cfg) specLocalAs() uint32 {
+	if c.cfgLocalAs != 0 {
+		return c.cfgLocalAs
+	}
+	if c.confedEn && c.peerAs != c.globalAs && !slices.Contains(c.confed, c.peerAs) {
+		return c.confedID
+	}
+	return c.globalAs
+}
 
 func c08B(b bool) int {
 	if b {
@@ -110,10 +164,7 @@ func (c *c08Cfg) line() string {
 // build mirrors what oc.SetDefaultNeighborConfigValues leaves behind for the fields the
 // negotiation reads (PeerType from the configured AS numbers, State.Family from the name, …).
 func (c *c08Cfg) build() (*oc.Global, *oc.Neighbor) {
-	g := &oc.Global{}
-	g.Config.As = c.localAs
-	g.Config.RouterId = c08U32Addr(c.routerID)
-	g.Confederation.Config.MemberAsList = append([]uint32{}, c.confed...)
+	g := c.global()
 	n := &oc.Neighbor{}
 	n.Config.NeighborAddress = netip.MustParseAddr("10.9.9.9")
 	n.State.NeighborAddress = n.Config.NeighborAddress
@@ -163,7 +214,15 @@ const c08UnknownFam = bgp.Family(3<<16 | 77)
 
 func c08GenCfg(r *vRand, thorough bool) *c08Cfg {
 	c := &c08Cfg{}
-	c.localAs = uint32(r.pick(64512, 65001, 65001, 65535, 65536, 4200000000, 4200000000, 23456, 1))
+	c.globalAs = uint32(r.pick(64512, 65001, 65001, 65535, 65536, 4200000000, 4200000000, 23456, 1))
+	if r.chance(35) { // per-neighbour local-as override
+		c.cfgLocalAs = uint32(r.pick(65100, 65002, 64513, 70000, 4200000001, int(c.globalAs)))
+	}
+	if r.chance(20) { // confederation: the identifier is spoken towards peers outside it
+		c.confedEn = true
+		c.confedID = uint32(r.pick(64999, 4200000999, 65002))
+	}
+	c.localAs = c.globalAs // provisional, see resolve
 	c.routerID = uint32(r.pick(0x0a000001, 0xc0a80101, 1, 0xfffffffe))
 	c.hold = r.pick(0, 3, 9, 10, 30, 90, 90, 90, 180, 65535, 4, 100)
 	if r.chance(3) {
@@ -673,7 +732,7 @@ func c08Analyse(b *bgp.BGPOpen) *c08Remote {
 }
 
 func c08Detail(c *c08Cfg, opens []string, what string) map[string]any {
-	return map[string]any{"cfg": c.line(), "opens": opens, "what": what}
+	return map[string]any{"cfg": c.line(), "gcfg": c.gline(), "opens": opens, "what": what}
 }
 
 // c08CheckSession: the property's clauses on (configuration, received OPEN, fsm after stateChange)
@@ -771,11 +830,14 @@ func c08CheckSession(o *vOut, c *c08Cfg, b *bgp.BGPOpen, f *fsm, recvMax map[uin
 	if conf.State.PeerAs != rm.realAS {
 		bad("peer-as-not-real", fmt.Sprintf("State.PeerAs %d real %d", conf.State.PeerAs, rm.realAS))
 	}
-	if (conf.State.PeerType == oc.PEER_TYPE_INTERNAL) != (rm.realAS == c.localAs) {
-		bad("peer-type-not-real-as", fmt.Sprintf("State.PeerType %v real AS %d local %d", conf.State.PeerType, rm.realAS, c.localAs))
+	// internal iff the AS in the peer's OPEN equals the AS OUR OPEN announced on this session
+	if (conf.State.PeerType == oc.PEER_TYPE_INTERNAL) != (rm.realAS == c.announcedAs) {
+		bad("peer-type-not-real-as", fmt.Sprintf("State.PeerType %v, peer's OPEN says AS %d, our OPEN announced AS %d (global AS %d, configured local-as %d, peer-as %d)",
+			conf.State.PeerType, rm.realAS, c.announcedAs, c.globalAs, c.cfgLocalAs, c.peerAs))
 	}
-	if f.isEBGP != (rm.realAS != c.localAs) {
-		bad("isebgp-not-real-as", fmt.Sprintf("fsm.isEBGP %v real AS %d local %d configured peer-as %d", f.isEBGP, rm.realAS, c.localAs, c.peerAs))
+	if f.isEBGP != (rm.realAS != c.announcedAs) {
+		bad("isebgp-not-real-as", fmt.Sprintf("fsm.isEBGP %v, peer's OPEN says AS %d, our OPEN announced AS %d (global AS %d, configured local-as %d, peer-as %d)",
+			f.isEBGP, rm.realAS, c.announcedAs, c.globalAs, c.cfgLocalAs, c.peerAs))
 	}
 	if f.isConfed != slices.Contains(c.confed, rm.realAS) {
 		bad("isconfed-not-real-as", fmt.Sprintf("fsm.isConfed %v real AS %d members %v configured peer-as %d", f.isConfed, rm.realAS, c.confed, c.peerAs))
@@ -892,7 +954,19 @@ func c08Roundtrip(m *bgp.BGPMessage) (*bgp.BGPMessage, error) {
 }
 
 func c08PickRealAS(r *vRand, c *c08Cfg) uint32 {
-	switch r.pick(0, 0, 0, 1, 1, 2, 2, 3) {
+	switch r.pick(0, 0, 0, 1, 1, 2, 2, 3, 4, 4) {
+	case 4: // the ASes the configuration mentions: global, configured local-as, confederation identifier / member
+		cands := []int{int(c.globalAs), int(c.globalAs)}
+		if c.cfgLocalAs != 0 {
+			cands = append(cands, int(c.cfgLocalAs), int(c.cfgLocalAs))
+		}
+		if c.confedEn {
+			cands = append(cands, int(c.confedID))
+		}
+		for _, m := range c.confed {
+			cands = append(cands, int(m))
+		}
+		return uint32(r.pick(cands...))
 	case 0:
 		return c.localAs // iBGP
 	case 1:
@@ -903,8 +977,33 @@ func c08PickRealAS(r *vRand, c *c08Cfg) uint32 {
 	return bgp.AS_TRANS
 }
 
-func c08Case(o *vOut, r *vRand, c *c08Cfg, specs []*c08OpenSpec) {
+func (c *c08Cfg) gline() string {
+	return fmt.Sprintf("gcfg %d %d %d %d", c.globalAs, c.cfgLocalAs, c08B(c.confedEn), c.confedID)
+}
+
+// c08Defaults: the neighbour's LocalAs / PeerType as the real configuration layer derived them,
+// against the model's applyDefaults and against the rule stated independently of both
+func c08Defaults(o *vOut, c *c08Cfg) {
 	o.op("%s", c.line())
+	o.op("%s", c.gline())
+	o.ask(fmt.Sprintf("%d %d", c.localAs, c08B(c.internal())), "localas")
+	if c.localAs != c.specLocalAs() || c.internal() != (c.peerAs == c.specLocalAs()) {
+		o.fail("local-as-defaults", c08Detail(c, nil, fmt.Sprintf("neighbour LocalAs %d internal %v; global AS %d, configured local-as %d, confederation %v id %d members %v, peer-as %d",
+			c.localAs, c.internal(), c.globalAs, c.cfgLocalAs, c.confedEn, c.confedID, c.confed, c.peerAs)))
+	}
+	switch {
+	case c.cfgLocalAs != 0 && c.cfgLocalAs != c.globalAs:
+		o.stat("localas_override", 1)
+	case c.localAs != c.globalAs:
+		o.stat("localas_confed_identifier", 1)
+	default:
+		o.stat("localas_global", 1)
+	}
+}
+
+func c08Case(o *vOut, r *vRand, c *c08Cfg, specs []*c08OpenSpec) {
+	c.resolve(o.t)
+	c08Defaults(o, c)
 	f, h := c08NewFSM(c)
 	defer c08Free(f)
 	opens := []string{}
@@ -920,6 +1019,7 @@ func c08Case(o *vOut, r *vRand, c *c08Cfg, specs []*c08OpenSpec) {
 			body := sent.Body.(*bgp.BGPOpen)
 			o.ask(c08OpenStr(body), "buildopen")
 			c08CheckOpenSent(o, c, body)
+			c.announcedAs = c08Analyse(body).realAS
 		}
 	}
 
@@ -1096,6 +1196,7 @@ func TestVerifC08(t *testing.T) {
 		}
 		for i := 0; i < n; i++ {
 			c := c08GenCfg(r, o.thorough)
+			c.resolve(t) // provisional (peer-as still 0): the AS an iBGP peer would have
 			realAS := c08PickRealAS(r, c)
 			switch r.pick(0, 0, 0, 0, 0, 0, 1, 1, 2) {
 			case 0:
@@ -1137,6 +1238,17 @@ func c08Corpus(o *vOut, r *vRand) {
 		params: caps(bgp.NewCapMultiProtocol(bgp.RF_IPv4_UC), bgp.NewCapFourOctetASNumber(65001))}})
 	c08Case(o, r, c1, []*c08OpenSpec{{version: 4, myAS: 65101, hold: 90, id: 0x0a000002,
 		params: caps(bgp.NewCapMultiProtocol(bgp.RF_IPv4_UC), bgp.NewCapFourOctetASNumber(65101))}})
+	// 1b. the neighbour speaks with a local-as that is not the global AS (per-neighbour override), peer-as
+	//     unconfigured: internal iff the peer's AS equals the AS OUR OPEN announced, not the global AS.
+	for _, peerAS := range []uint16{65100, 65000} {
+		c3 := &c08Cfg{globalAs: 65000, cfgLocalAs: 65100, peerAs: 0, routerID: 0x0a000001, hold: 90, ka3: 90, afs: []c08Af{v4}}
+		c08Case(o, r, c3, []*c08OpenSpec{{version: 4, myAS: peerAS, hold: 90, id: 0x0a000002,
+			params: caps(bgp.NewCapMultiProtocol(bgp.RF_IPv4_UC), bgp.NewCapFourOctetASNumber(uint32(peerAS)))}})
+		// the same with the confederation identifier spoken towards a peer outside the confederation
+		c4 := &c08Cfg{globalAs: 65000, confedEn: true, confedID: 65100, confed: []uint32{65001}, peerAs: 0, routerID: 0x0a000001, hold: 90, ka3: 90, afs: []c08Af{v4}}
+		c08Case(o, r, c4, []*c08OpenSpec{{version: 4, myAS: peerAS, hold: 90, id: 0x0a000002,
+			params: caps(bgp.NewCapMultiProtocol(bgp.RF_IPv4_UC), bgp.NewCapFourOctetASNumber(uint32(peerAS)))}})
+	}
 	// 2. the peer first announces Graceful Restart (+ N bit, LLGR), then comes back without: nothing
 	//    of the first negotiation may survive.
 	c2 := &c08Cfg{localAs: 65001, peerAs: 65002, routerID: 0x0a000001, hold: 90, ka3: 90, afs: []c08Af{v4},
